@@ -168,7 +168,7 @@ TIE_THEOREM = {"Secs": "secs_tie", "NoteDur": "noteDur_tie", "BpmDecode": "bpmDe
                "LoopEvents": ["dataToEvents_tie", "dataToBpmEvents_tie", "dataToAnchorEvents_tie"], "LoopSp": ["spData_tie"], "LoopGroups": ["buildNoteEvents_tie"],
                "LoopValid": ["bpmEventsPostInit_tie", "syncPostInit_tie"], "LoopScan": ["partitionLines_tie"], "ComposeLoopScan": ["scanV_scanGo", "scanV_scanSections"], "LoopLanes": ["noteFromParsedDatas_tie", "lanesFold_lanes"],
                "LoopSustain": ["refinedSustainTuple_tie", "longestSustain_int", "longestSustain_tup", "refineV_refine", "complexSustain_tie", "fillV_fill"],
-               "LoopGlue": ["noteFromParsedData_tie"], "LoopRate": ["notesPerSecond_tie", "bounds_falls"], "LoopField": ["parseAllLinesForField_tie"], "LoopLastEnd": ["lastNoteEndTimestamp_tie", "firstMax_pairs"], "LoopStamp": ["stamp_tie", "specialFromParsedData_tie", "trackEventFromParsedData_tie", "globalEventFromParsedData_tie", "anchorFromParsedData_tie"], "LoopTracks": ["instrumentFromChartLines_tie", "syncFromChartLines_tie", "globalEventsFromChartLines_tie", "instrumentParseData_tie", "syncParseData_tie", "globalEventsParseData_tie", "buildEventsFromData_tie"], "LoopRoute": ["fromFile_tie", "routeFold_select", "routeFold_unrestricted", "routeBody_turns", "skipV_seq", "fileV_missing_required", "req_tags", "routeFold_empty", "routeFold_empty_table", "table_entries", "fileV_select"], "LoopDispatch": ["parseData_tie"], "ComposeLoopDispatch": ["dispatchV_eq"],
+               "LoopGlue": ["noteFromParsedData_tie"], "LoopRate": ["notesPerSecond_tie", "bounds_falls"], "LoopField": ["parseAllLinesForField_tie"], "LoopLastEnd": ["lastNoteEndTimestamp_tie", "firstMax_pairs"], "LoopStamp": ["stamp_tie", "specialFromParsedData_tie", "trackEventFromParsedData_tie", "globalEventFromParsedData_tie", "anchorFromParsedData_tie", "timeSignatureFromParsedData_tie"], "LoopTracks": ["instrumentFromChartLines_tie", "syncFromChartLines_tie", "globalEventsFromChartLines_tie", "instrumentParseData_tie", "syncParseData_tie", "globalEventsParseData_tie", "buildEventsFromData_tie"], "LoopRoute": ["fromFile_tie", "routeFold_select", "routeFold_unrestricted", "routeBody_turns", "skipV_seq", "fileV_missing_required", "req_tags", "routeFold_empty", "routeFold_empty_table", "table_entries", "fileV_select"], "LoopDispatch": ["parseData_tie"], "ComposeLoopDispatch": ["dispatchV_eq"],
                # … and what they say about the hand model's functions (the subjects of the property theorems)
                "ComposeLoopEvents": ["dataToEvents_code"], "ComposeLoopSp": ["spData_code"], "ComposeLoopGroups": ["buildNoteEvents_code"]}
 
